@@ -32,6 +32,7 @@ def lit(x):
 def gen_template(rng, i):
     """-> (text, scalar parameter names, {array parameter: (rows, cols)})"""
     g = Gen(rng, allow_params=True, allow_regs=False, allow_loops=True)
+    g.allow_redeclare = False      # a parameter used only in a declaration that is overwritten is reported but unused: outside the property
     lines = g.header() + [""]
     arrays = {}
     n = rng.randint(1, 6)
